@@ -633,7 +633,21 @@ class SimNet:
         else:
             addrs = None
 
+        # what the real resolver call does with arguments it cannot even
+        # pass on (CPython: socket.getaddrinfo)
+        if not 0 <= port <= 65535:
+            raise OverflowError('getsockaddrarg: port must be 0-65535.')
+
         if addrs is None:
+            if '\0' in host:
+                raise ValueError('embedded null character')
+
+            if not self._is_ip(host) and \
+                    any(not 0 < len(label) < 64
+                        for label in host.rstrip('.').split('.')):
+                raise UnicodeError('encoding with \'idna\' codec failed '
+                                   '(UnicodeError: label empty or too long)')
+
             if host in self.dns_fail:
                 raise socket.gaierror(socket.EAI_NONAME,
                                       'Name or service not known')
